@@ -540,6 +540,20 @@ func ruleSHARE(c *Ctx) {
 			}
 		}
 	}
+	// mutating methods of sync.Map / sync/atomic types on package-level variables
+	seenG := map[string]bool{}
+	for _, gw := range w.globalWrites(reach) {
+		if gw.How == "assigned" || gw.How == "map entry written" {
+			continue // reported above
+		}
+		key := "global-write/" + gw.G.Pkg.Pkg.Name() + "." + gw.G.Name()
+		if seenG[key] {
+			continue
+		}
+		seenG[key] = true
+		nStores++
+		c.fail(key, &posNode{gw.Pos}, "the package-level variable "+gw.G.Name()+" is changed ("+gw.How+") in "+w.ctxKey(gw.Pos)+", a function reachable from VM.Run: all VMs in the process - every clone - share it")
+	}
 	for _, key := range sortedKeys(sharedSites) {
 		ps := sharedSites[key]
 		sort.Slice(ps, func(i, j int) bool { return ps[i] < ps[j] })
@@ -551,4 +565,130 @@ func ruleSHARE(c *Ctx) {
 		c.fail(key, &posNode{ps[0]}, fmt.Sprintf("field %s is written in a function reachable from VM.Run on an object that may be a constant shared by all clones of a compiled script: concurrent clones race on it; stores: %s", fld, strings.Join(sites, ", ")))
 	}
 	c.check(nStores > 0, "shared-write/scan", nil, fmt.Sprintf("%d stores to fields of clone-shared types examined in %d reachable functions", nStores, len(reach)), "no store to a shared type found at all (closure construction in the VM must show up): analysis incomplete")
+}
+
+// ---------------------------------------------------------------- STATE.1
+
+type globalWrite struct {
+	Pos  token.Pos
+	G    *ssa.Global
+	How  string
+	Func *ssa.Function
+}
+
+// globalWrites: writes to package-level variables of the module in the given
+// functions - stores whose address chain is rooted in such a variable, map
+// updates on maps held in one, and calls of the mutating methods of sync.Map /
+// sync/atomic types on one (sync.Pool is POOL.1's, locks are not state).
+func (w *World) globalWrites(reach map[*ssa.Function]bool) []globalWrite {
+	var out []globalWrite
+	var rootGlobal func(v ssa.Value, depth int) *ssa.Global
+	rootGlobal = func(v ssa.Value, depth int) *ssa.Global {
+		if depth > 6 {
+			return nil
+		}
+		switch x := v.(type) {
+		case *ssa.Global:
+			if x.Pkg != nil && w.inModulePkg(x.Pkg.Pkg) {
+				return x
+			}
+		case *ssa.FieldAddr:
+			return rootGlobal(x.X, depth+1)
+		case *ssa.IndexAddr:
+			return rootGlobal(x.X, depth+1)
+		case *ssa.UnOp:
+			if x.Op == token.MUL {
+				return rootGlobal(x.X, depth+1)
+			}
+		case *ssa.Slice:
+			return rootGlobal(x.X, depth+1)
+		}
+		return nil
+	}
+	mutating := func(name string) bool {
+		for _, pre := range []string{"Store", "LoadOrStore", "LoadAndDelete", "Delete", "Swap", "CompareAnd", "Add", "Or", "And", "Clear"} {
+			if strings.HasPrefix(name, pre) {
+				return true
+			}
+		}
+		return false
+	}
+	for fn := range reach {
+		if !w.inModule(fn) || fn.Blocks == nil || fn.Name() == "init" || strings.HasPrefix(fn.Name(), "init#") {
+			continue
+		}
+		for _, b := range fn.Blocks {
+			for _, ins := range b.Instrs {
+				switch x := ins.(type) {
+				case *ssa.Store:
+					if g := rootGlobal(x.Addr, 0); g != nil {
+						out = append(out, globalWrite{x.Pos(), g, "assigned", fn})
+					}
+				case *ssa.MapUpdate:
+					if g := rootGlobal(x.Map, 0); g != nil {
+						out = append(out, globalWrite{x.Pos(), g, "map entry written", fn})
+					}
+				case ssa.CallInstruction:
+					cc := x.Common()
+					callee := cc.StaticCallee()
+					if callee == nil || callee.Pkg == nil || len(cc.Args) == 0 {
+						continue
+					}
+					pp := callee.Pkg.Pkg.Path()
+					if pp != "sync" && pp != "sync/atomic" {
+						continue
+					}
+					if callee.Signature.Recv() != nil {
+						if tn, _ := namedName(callee.Signature.Recv().Type()); tn == "Pool" || tn == "Mutex" || tn == "RWMutex" || tn == "Once" || tn == "WaitGroup" {
+							continue
+						}
+					}
+					if !mutating(callee.Name()) {
+						continue
+					}
+					if g := rootGlobal(cc.Args[0], 0); g != nil {
+						out = append(out, globalWrite{x.Pos(), g, callee.Name(), fn})
+					}
+				}
+			}
+		}
+	}
+	sort.Slice(out, func(i, j int) bool { return out[i].Pos < out[j].Pos })
+	return out
+}
+
+// STATE.1 (C12): compiling, de-duplicating, encoding and decoding are
+// functions of their inputs. No function reachable from Bytecode.Decode,
+// Encode, RemoveDuplicates or the compile entry points writes a package-level
+// variable: a cache keyed by module name, say, would make the result of one
+// Decode depend on the module map an earlier Decode in the process was given.
+func ruleSTATE1(c *Ctx) {
+	w := c.W
+	entries := append([]*ssa.Function{}, w.c04Entries()...)
+	for _, m := range []string{"Decode", "Encode", "RemoveDuplicates", "Clone", "ReplaceBuiltinModule"} {
+		entries = append(entries, w.ssaFunc("", "Bytecode", m))
+	}
+	for i, e := range entries {
+		if e == nil {
+			c.anchor(fmt.Sprintf("entry point #%d of the compile / encode / decode paths", i))
+			return
+		}
+	}
+	reach := w.reachable(entries)
+	n := 0
+	for fn := range reach {
+		if w.inModule(fn) {
+			n++
+		}
+	}
+	seen := map[string]bool{}
+	for _, gw := range w.globalWrites(reach) {
+		key := "package-state/" + gw.G.Pkg.Pkg.Name() + "." + gw.G.Name()
+		if seen[key] {
+			continue
+		}
+		seen[key] = true
+		c.fail(key, &posNode{gw.Pos}, "the package-level variable "+gw.G.Name()+" is written ("+gw.How+") in "+w.ssaFuncName(gw.Func)+", which the compile / encode / decode paths reach: what one call returns then depends on the calls made before it in the process (and concurrent calls share it)")
+	}
+	c.check(n > 50, "package-state/scan", nil, fmt.Sprintf("%d module functions reachable from the compile, de-duplication, encode and decode entry points write no package-level variable", n), "too few functions reached: call graph incomplete")
 }
